@@ -225,6 +225,7 @@ def run(fx, R, tier, sv_ratio=1e-12, sv_why='with cond(J) < 1e6 (quantifier) the
         check_shortcuts(fx, R, cq, cname)
         check_set_data_size(fx, R, cq, cname)
         check_workspaces(fx, R, cq, cname)
+        check_ldlt_factors(fx, R, cq, cname)
         for g_ in fx.fn(cq + '::setEstimateSize'):
             R.used(g_)                    # the other configuration call of a sequence of problems: swept for state it leaves behind
         check_normal(fx, R, cq, cname)
@@ -265,6 +266,31 @@ def check_set_data_size(fx, R, cq, cname):
     only = all(n == 'setDataSize' for (n, _, _) in shr)
     R.form(only, 'L1', cname + ':buffer-resizes', 'row buffers are resized/reset outside setDataSize (%s); what that does to the rows of the current problem is judged by the instance rule L7 only for the paths it '
            'reads' % [t_ for t_ in shr if t_[0] != 'setDataSize'], 'row buffers resized only in setDataSize (column-only resizes elsewhere)', fx.rel(f['loc']), 'E-STATE')
+
+
+def check_ldlt_factors(fx, R, cq, cname):
+    """L3 (contract fact): Eigen::LDLT is a PIVOTED factorisation, A = P^T L D L^T P.  matrixL() / matrixU() / vectorD() used without transpositionsP() rebuild P A P^T (or its inverse): a
+    symmetric permutation of the matrix that is wanted - same eigenvalues, entries attached to other parameters."""
+    rec = fx.records.get(cq) or {}
+    n = 0
+    for mth in rec.get('methods', []):
+        for g in fx.fn(mth['q']):
+            if g.get('body') is None:
+                continue
+            uses = [y for y in walk(g['body']) if isinstance(y, dict) and y.get('k') == 'MCall' and y.get('m') in ('matrixL', 'matrixU', 'vectorD', 'matrixLDLT') and 'LDLT' in ((y.get('cls') or '') + pp(y.get('obj')))]
+            perm = [y for y in walk(g['body']) if isinstance(y, dict) and y.get('k') == 'MCall' and y.get('m') in ('transpositionsP', 'reconstructedMatrix')]
+            if not uses:
+                continue
+            n += 1
+            if perm:
+                R.undecided('L3', '%s::%s:ldlt-factors' % (cname, g['name']), 'the factors of an LDLT are used together with its transpositions: the product is not checked')
+            else:
+                R.violated('L3', '%s::%s:ldlt-permutation-ignored' % (cname.split('<')[0], g['name']), '%s() uses %s of an Eigen::LDLT and never its transpositionsP(): Eigen\'s LDLT is pivoted, A = P^T L D L^T P, so a matrix '
+                           'assembled from L and D alone is that of P A P^T - here a symmetric PERMUTATION of (J^T J)^-1.  It is symmetric, positive definite and of the right size, but its entries belong to other '
+                           'parameters whenever the factorisation pivots (a later parameter with a larger normal-matrix diagonal): the covariance reported afterwards is not data variance times the inverse normal '
+                           'matrix.  ldlt.solve() applies the permutation itself, which is why the estimate is unaffected' % (g['name'], ', '.join(sorted({y['m'] + '()' for y in uses}))), fx.rel(uses[0].get('loc') or g['loc']), 'E-ALG')
+    if not n:
+        R.holds('L3', cname + ':ldlt-factors', 'no method rebuilds a matrix from the raw factors of a pivoted LDLT', None, 'E-ALG')
 
 
 def check_workspaces(fx, R, cq, cname):
@@ -472,7 +498,20 @@ def check_paths(fx, R, cq, cname):
                        'configured preconditioner offset is not applied (setPreconditionner(I, b) with b != 0 returns x instead of x + b)' % (str(partial[0])[:100], str(gtxt)[:80]), fx.rel(f['loc']), 'E-SIB')
         else:
             absent = [n for n in ('this.Ac_', 'this.Bc_', 'this.inverseJtJ_', 'this.JtY_') if rres and not any(contains_name(r, n) for r in rres)]
-            if absent:
+            # `decomposition(JtJ_).solve(JtY_)` applies the inverse of the normal matrix without naming the stored inverse
+            def solves_normal(t):
+                if isinstance(t, tuple):
+                    if t and t[0] == '.solve' and len(t) == 3 and contains_name(t[1], 'this.JtJ_') and contains_name(t[2], 'this.JtY_'):
+                        return True
+                    return any(solves_normal(y_) for y_ in t)
+                return False
+            if 'this.inverseJtJ_' in absent and rres and all(solves_normal(r_) for r_ in rres):
+                absent.remove('this.inverseJtJ_')
+                if not absent:
+                    R.holds('L3', inst + ':result', 'x = A solve(JtJ, JtY) + b (the factorisation is applied directly)', fx.rel(f['loc']), 'E-SIB')
+            if not absent and rres and all(solves_normal(r_) for r_ in rres):
+                pass
+            elif absent:
                 R.violated('L3', inst + ':result', 'the returned expression %s does not use %s: the %s is not applied on this path' % (
                     rets, absent, 'preconditioner' if absent[0] in ('this.Ac_', 'this.Bc_') else 'solution of the normal equations'), fx.rel(f['loc']), 'E-SIB')
             else:
